@@ -33,6 +33,8 @@ CLAUSE_PROP = {
     "c14_dry_is_dry": "C14", "c14_dry_plan_transformed": "C14", "c14_dry_run_executed_nothing": "C14", "c14_dry_run_left_stores": "C14",
     # engine-level consequences seen from here
     "end_nothing_running": "C07", "too_many_inflight": "C10", "threads_leaked": "C07",
+    "too_many_mtime_queries_inflight": "C10", "attempts_exceed_retry": "C10", "eventual_success_not_honoured": "C10",
+    "reported_exception_not_last_attempt": "C10",
 }
 # clauses that only fail when the harness and the monitor disagree about bookkeeping
 MACHINERY_CLAUSES = {
@@ -241,6 +243,8 @@ def campaign(res, prop, tasks, rule):
             extra.setdefault("C03", []).append("unexpected_error")
         if info["max_inflight_over"]:
             extra.setdefault("C10", []).append("too_many_inflight")
+        for c, _what in info.get("c10", []):
+            extra.setdefault("C10", []).append(c)
         if info["threads_leaked"]:
             extra.setdefault("C07", []).append("threads_leaked")
         if extra:
@@ -254,7 +258,7 @@ def campaign(res, prop, tasks, rule):
         distinct_nontrivial=len(nontrivial),
         runs=sum(i["runs"] for i in infos), successful_runs=sum(i["ok_runs"] for i in infos),
         failed_runs=sum(i["failed_runs"] for i in infos), cuts_hit=sum(i["cuts_hit"] for i in infos),
-        dry_runs=sum(i["dry"] for i in infos), renders=sum(i["renders"] for i in infos),
+        dry_runs=sum(i["dry"] for i in infos), renders=sum(i["renders"] for i in infos), retry_runs=sum(i.get("retry_runs", 0) for i in infos),
         events=sum(len(t["events"]) for t in traces),
     )
     res.coverage["traces_accepted"] = res.coverage.get("traces_accepted", 0) + len(traces) - len(rej)
@@ -296,6 +300,8 @@ def replay(prop, w):
     by = classify(task, out["trace"], rej[0]) if rej else {}
     if out["info"]["unexpected"]:
         by.setdefault("C03", []).append("unexpected_error")
+    for c, _what in out["info"].get("c10", []):
+        by.setdefault("C10", []).append(c)
     print(json.dumps({"clauses": rej.get(0, [])[:20], "by_prop": by, "info": out["info"]}, default=repr)[:3000])
     if prop in by:
         print(f"VIOLATION property={prop} replay=(reproduced)")
